@@ -1,4 +1,5 @@
 import EdzedProofs.Basic
 import EdzedProofs.Counter
 import EdzedProofs.Init
+import EdzedProofs.InitOrder
 import EdzedProofs.Simulate
